@@ -13,7 +13,11 @@ package main
 //     error text and stdout must be identical.
 //  C. site probes against the Lean site-class models: SortedKeys / set order / VirtualOS.Environ /
 //     first-failure loops (function defaults, conversions) / applyOverrides / MockFS.ReadDir.
-//  D. configuration probes (denylist, global names, shuffled option order), law-based.
+//  C2/C3. sets of every hashable type (floats, NaN, bytes, ...) against the model's order over FULL hash keys;
+//     sorted(set|map, cmp) with ties against the model's stable sort of the ordered listing.
+//  D. configuration probes (denylist, global names, shuffled option order), law-based; D2: module globals
+//     whose module names differ from / collide with the global names, against the model's import cache.
+//  E. every callable x (map | mixed set | float set) at every argument position, evaluated repeatedly.
 
 import (
 	"bufio"
@@ -23,6 +27,7 @@ import (
 	"encoding/hex"
 	"encoding/json"
 	"fmt"
+	"math"
 	"os"
 	"os/exec"
 	"regexp"
@@ -46,6 +51,7 @@ const (
 	c05_fConvert   = "C05-conversion-error-order"
 	c05_fOverrides = "C05-overrides-abort-order"
 	c05_fMockFS    = "C05-mockfs-readdir-order"
+	c05_fSetNaN    = "C05-set-nan-order"
 )
 
 func init() {
@@ -724,7 +730,7 @@ func c05RunChildren(srcs []string, n int) [][]c05Obs {
 	return out
 }
 
-var c05LocalNames = regexp.MustCompile(`\b(qf|qg|qh|qb|qe|qi|qj|qn|qo|qt)\b`)
+var c05LocalNames = regexp.MustCompile(`\b(qf|qg|qh|qb|qe|qi|qj|qn|qo|qt|qu)\b`)
 
 // prelude pieces.  big = contains a map literal with >= 2 entries (outside the guard).
 type c05Piece struct {
@@ -745,7 +751,7 @@ func c05Prelude(r *RNG, allowBig bool) (string, bool, []string) {
 	pos := func() int { return r.Intn(20) }
 	// maps built without a multi-entry literal
 	add("map-setitem", false, "qm := {%q: %d}\nqm[%q] = %d\nqm[%q] = [%d, %d]\nqm[%q] = %q", key(), num(), key(), num(), key(), num(), num(), key(), key())
-	add("set-literal", false, "qs := {%d, %d, %q, %d, %q, true, nil}", num(), num(), key(), num(), key())
+	add("set-literal", false, "qs := {%d, %d, %q, %d, %q, true, nil, %d.5, 0.5, %d.0, 2.25}", num(), num(), key(), num(), key(), pos(), pos())
 	for i := 0; i < 6; i++ {
 		switch r.Intn(22) {
 		case 0:
@@ -780,6 +786,13 @@ func c05Prelude(r *RNG, allowBig bool) (string, bool, []string) {
 			add("sprintf", false, "print(sprintf(\"%%v %%v\", qm, qs))")
 		case 15:
 			add("closure-default", false, "func qg(x, y=%d) { return func() { return [x, y, qm] } }\nprint(qg(%d)())", pos(), num())
+		case 16:
+			// comparison functions that cannot tell some keys/items apart: ties must come out in the ordered listing
+			add("sorted-cmp-ties", false, "print(sorted(qm, func(a, b) { return len(a) < len(b) }), sorted(qs, func(a, b) { return type(a) < type(b) }), sorted(qs, func(a, b) { return false }), sorted({3, 1, 2.0, 2, 1.0, %d}))", pos())
+		case 17:
+			add("float-set", false, "qu := {2.5, 0.5, 1.5, %d.25, %d.75, (-1.5)}\nfor k, v := range qu { print(k, v) }\nprint(qu, list(qu), string(qu), math.sum(list(qu)), json.marshal(list(qu)), qu.union({9.5, 8.5}))", pos(), pos())
+		case 18:
+			add("containers-as-arguments", false, "print(list(qs), list(qm), set(qm), set(list(qs)), reversed(list(qs)), chunk(list(qs), 2), strings.join(list(qm), \"-\"), sprintf(\"%%v\", list(qs)))")
 		}
 		if !allowBig {
 			continue
@@ -867,6 +880,9 @@ func c05Compare(e *Env, p c05Prog, obs []c05Obs, where string) {
 			if strings.HasPrefix(a.Code, "ERR:") && strings.Contains(a.Code, "parse") {
 				return false
 			}
+			if ErrClass(a.Err) == "context" {
+				return false // dropping the line made the program run into the time limit: not a candidate
+			}
 			for k := 0; k < 11; k++ {
 				if c05Observe(src) != a {
 					return true
@@ -936,6 +952,8 @@ func c05General(e *Env, n, reps, children int) {
 		{"m := {}\nfor i := 0; i < 40; i++ { m[string(i)] = i }\nl := []\nfor k, v := range m { l.append(v) }\nprint(m)\n[l, m.keys(), {9, 8, 7, 6, 5, 4, 3, 2, 1, 0, 10, 11, 12, 13, 14, 15, 16, 17}]\n", false, []string{"large-map", "map-iter"}},
 		{"func f(a, b=2, c=\"x\", d=false) { return [a, b, c, d] }\n[f(1), f(1, 5), f(1, 5, 6, 7)]\n", false, []string{"defaults"}},
 		{"s := {3, 1, 2}\nt := {\"b\", \"a\", 1}\n[s.union(t), s.intersection(t), list(s), s == {1, 2, 3}]\n", false, []string{"set-ops"}},
+		{"s := {2.5, 0.5, 1.5, 3.5, 4.5, 10.5}\nprint(s)\nl := []\nfor k, v := range s { l.append(k) }\n[l, list(s), string(s), s.union({7.5, 6.5})]\n", false, []string{"float-set"}},
+		{"m := {}\nfor i, w := range [\"fig\", \"yam\", \"date\", \"kiwi\", \"pear\", \"apple\"] { m[w] = i }\n[sorted(m, func(a, b) { return len(a) < len(b) }), sorted({1, 1.0, 2, 2.0, 3, 3.0}), sorted({\"b\", 1.5, \"a\", 0.5, 2}, func(a, b) { return type(a) < type(b) })]\n", false, []string{"sorted-cmp-ties"}},
 	} {
 		progs = append(progs, d)
 	}
@@ -1550,6 +1568,775 @@ func c05SiteMockFS(e *Env, reps int) {
 	}
 }
 
+// ------------------------------------------------------------------ streams C2/C3: hash keys of every type
+
+// c05_item is one hashable value: the object, its oracle token, and (when it has one) its
+// literal in a script.
+type c05_item struct {
+	obj   object.Object
+	tok   string
+	src   string // "" = no script literal (only used at the object level)
+	desc  string // how the case text names it
+	ty    string
+	num2  int64 // 2*value for ints and floats with a script literal
+	isNum bool
+	nan   bool
+}
+
+// c05_fltOrd maps a non-NaN float64 to its position among the non-NaN floats (order
+// isomorphism; -0 and +0 share position 0).
+func c05_fltOrd(f float64) int64 {
+	b := math.Float64bits(f)
+	if b>>63 != 0 {
+		return -int64(b & 0x7fffffffffffffff)
+	}
+	return int64(b)
+}
+
+func c05_fltItem(f float64, src string) c05_item {
+	it := c05_item{obj: object.NewFloat(f), src: src, ty: "float"}
+	if f != f {
+		it.tok, it.desc, it.nan = "D", "float(\"nan\")", true
+		return it
+	}
+	it.tok = "d:" + strconv.FormatInt(c05_fltOrd(f), 10)
+	it.desc = src
+	if src == "" {
+		it.desc = "float(" + strconv.FormatFloat(f, 'g', -1, 64) + ")"
+	} else {
+		it.num2, it.isNum = int64(f*2), true
+	}
+	return it
+}
+
+func c05_intItem(v int64, script bool) c05_item {
+	it := c05_item{obj: object.NewInt(v), tok: "i:" + strconv.FormatInt(v, 10), ty: "int", desc: strconv.FormatInt(v, 10)}
+	if script {
+		it.src = it.desc
+		if v < 0 {
+			it.src = "(" + it.desc + ")"
+		}
+		it.desc = it.src
+		it.num2, it.isNum = 2*v, true
+	}
+	return it
+}
+
+func c05_strItem(v string) c05_item {
+	tok := "s:" + Hex(v)
+	if v == "" {
+		tok = "s:-"
+	}
+	return c05_item{obj: object.NewString(v), tok: tok, src: strconv.Quote(v), desc: strconv.Quote(v), ty: "string"}
+}
+
+var c05_scriptFloats = []struct {
+	f   float64
+	src string
+}{{0.5, "0.5"}, {1.5, "1.5"}, {2.5, "2.5"}, {-0.5, "(-0.5)"}, {-2.5, "(-2.5)"}, {10.5, "10.5"}, {1, "1.0"}, {2, "2.0"},
+	{3, "3.0"}, {-1, "(-1.0)"}, {0, "0.0"}, {6.5, "6.5"}, {7.5, "7.5"}, {4, "4.0"}}
+
+var c05_objectFloats = []float64{1e300, -1e300, 5e-324, -5e-324, math.Inf(1), math.Inf(-1), math.MaxFloat64, 0.1 + 0.2, 0.3, 1e-7}
+
+var c05_itemWords = []string{"", "a", "b", "ab", "B", "z", "fig", "yam", "kiwi", "date", "pear", "1", "1.5", "apple"}
+
+// c05_genItems draws k pairwise distinct hashable values.  mode: 0 every type, 1 floats only,
+// 2 ints and floats, 3 strings only.  script = only values that have a script literal.
+func c05_genItems(r *RNG, k, mode int, script bool, nans int) []c05_item {
+	seen := map[string]bool{}
+	var out []c05_item
+	for tries := 0; len(out) < k && tries < 40*k+40; tries++ {
+		var it c05_item
+		kind := r.Intn(9)
+		switch mode {
+		case 1:
+			kind = 0
+		case 2:
+			kind = r.Intn(3) // 0,1 float  2 int
+			if kind == 1 {
+				kind = 0
+			}
+		case 3:
+			kind = 3
+		}
+		switch kind {
+		case 0, 1:
+			if !script && r.Chance(30) {
+				it = c05_fltItem(Pick(r, c05_objectFloats), "")
+			} else {
+				f := Pick(r, c05_scriptFloats)
+				it = c05_fltItem(f.f, f.src)
+			}
+		case 2, 8:
+			v := int64(r.Intn(10)) - 3
+			if !script && r.Chance(10) {
+				v = Pick(r, []int64{math.MaxInt64, math.MinInt64, 1 << 53})
+			}
+			it = c05_intItem(v, true)
+		case 3, 4:
+			it = c05_strItem(Pick(r, c05_itemWords))
+		case 5:
+			b := r.Bool()
+			it = c05_item{obj: object.NewBool(b), tok: map[bool]string{true: "t", false: "f"}[b], src: strconv.FormatBool(b), desc: strconv.FormatBool(b), ty: "bool"}
+		case 6:
+			it = c05_item{obj: object.Nil, tok: "n", src: "nil", desc: "nil", ty: "nil"}
+		default:
+			if script {
+				continue
+			}
+			if r.Bool() {
+				b := byte(r.Intn(6))
+				it = c05_item{obj: object.NewByte(b), tok: "b:" + strconv.Itoa(int(b)), desc: fmt.Sprintf("byte(%d)", b), ty: "byte"}
+			} else {
+				v := Pick(r, []string{"", "a", "ab", "b", "\x00", "\xff"})
+				tok := "y:" + Hex(v)
+				if v == "" {
+					tok = "y:-"
+				}
+				it = c05_item{obj: object.NewByteSlice([]byte(v)), tok: tok, desc: fmt.Sprintf("byte_slice(%q)", v), ty: "byte_slice"}
+			}
+		}
+		if seen[it.tok] {
+			continue
+		}
+		seen[it.tok] = true
+		out = append(out, it)
+	}
+	for i := 0; i < nans; i++ {
+		at := r.Intn(len(out) + 1)
+		out = append(out[:at], append([]c05_item{c05_fltItem(math.NaN(), "")}, out[at:]...)...)
+	}
+	return out
+}
+
+func c05_itemToks(items []c05_item) string {
+	if len(items) == 0 {
+		return "-"
+	}
+	t := make([]string, len(items))
+	for i, it := range items {
+		t[i] = it.tok
+	}
+	return strings.Join(t, ",")
+}
+
+func c05_itemDescs(items []c05_item) string {
+	t := make([]string, len(items))
+	for i, it := range items {
+		t[i] = it.desc
+	}
+	return strings.Join(t, ", ")
+}
+
+// c05_inspectAt renders the items at the positions of an oracle reply ("2.0.1" or "-").
+func c05_inspectAt(items []c05_item, pos string) string {
+	if pos == "-" || pos == "" {
+		return ""
+	}
+	var parts []string
+	for _, p := range strings.Split(pos, ".") {
+		i, err := strconv.Atoi(p)
+		if err != nil || i < 0 || i >= len(items) {
+			return "<bad position " + p + ">"
+		}
+		parts = append(parts, items[i].obj.Inspect())
+	}
+	return strings.Join(parts, ", ")
+}
+
+type c05_setObs struct{ pos, ins, iter, list string }
+
+// c05_observeSet builds a fresh set of the items and reads it by every route: SortedItems (as
+// positions; every NaN counts as the first NaN, as in the oracle's reply), Inspect, the
+// iterator (as positions) and List().
+func c05_observeSet(items []c05_item) (o c05_setObs, err string) {
+	defer func() {
+		if rec := recover(); rec != nil {
+			err = fmt.Sprintf("PANIC %v", rec)
+		}
+	}()
+	objs := make([]object.Object, len(items))
+	index := map[object.Object]int{}
+	firstNaN := -1
+	for i, it := range items {
+		objs[i] = it.obj
+		if it.nan {
+			if firstNaN < 0 {
+				firstNaN = i
+			}
+			index[it.obj] = firstNaN
+			continue
+		}
+		index[it.obj] = i
+	}
+	set, ok := object.NewSet(objs).(*object.Set)
+	if !ok {
+		return o, "NewSet failed"
+	}
+	posOf := func(xs []object.Object) string {
+		if len(xs) == 0 {
+			return "-"
+		}
+		p := make([]string, len(xs))
+		for i, x := range xs {
+			j, ok := index[x]
+			if !ok {
+				j = -1
+			}
+			p[i] = strconv.Itoa(j)
+		}
+		return strings.Join(p, ".")
+	}
+	o.pos = posOf(set.SortedItems())
+	o.ins = set.Inspect()
+	var via []object.Object
+	it := set.Iter()
+	for {
+		x, ok := it.Next(context.Background())
+		if !ok {
+			break
+		}
+		via = append(via, x)
+	}
+	o.iter = posOf(via)
+	o.list = set.List().Inspect()
+	return o, ""
+}
+
+// c05SiteSetOrder: Set.SortedItems / Inspect / Iter / List against the model's sortedItems and
+// iterItems over FULL hash keys (type, int, string, float), every hashable type.
+func c05SiteSetOrder(e *Env, n, reps int) {
+	rng := e.Rng.Fork()
+	shrunk := 0
+	for i := 0; i < n; i++ {
+		r := rng.Fork()
+		k := 2 + r.Intn(7)
+		if r.Chance(12) {
+			k = 13 + r.Intn(30) // several buckets; sort.Slice leaves its insertion-sort range
+		}
+		mode := Pick(r, []int{0, 0, 0, 1, 1, 2, 3})
+		nans := 0
+		if r.Chance(8) {
+			k, nans = 1+r.Intn(3), 1+r.Intn(2)
+		}
+		items := c05_genItems(r, k, mode, false, nans)
+		switch i { // directed: the smallest sets with two members that differ only in the float field / with a NaN
+		case 0:
+			items, nans = []c05_item{c05_fltItem(2.5, "2.5"), c05_fltItem(1.5, "1.5")}, 0
+		case 1:
+			items, nans = []c05_item{c05_fltItem(math.NaN(), ""), c05_fltItem(1.5, "1.5"), c05_fltItem(2.5, "2.5")}, 1
+		}
+		caseKey := "object.NewSet{" + c05_itemDescs(items) + "}: SortedItems/Inspect/Iter/List"
+		e.R.Case(caseKey, len(items) >= 2)
+		types := map[string]int{}
+		for _, it := range items {
+			types[it.ty]++
+		}
+		for t, c := range types {
+			if c >= 2 {
+				e.R.H("site_setOrder_types_with_2+_members", t)
+			}
+		}
+		e.R.H("site_setOrder_size", fmt.Sprintf("%02d", min(len(items), 20)))
+		toks := c05_itemToks(items)
+		// what the model allows: one listing (NaN-free) or one per visiting order; SortedItems
+		// and the iterator range over the Go map separately, so their visiting orders are independent
+		allowedPos, allowedIter := map[string]bool{}, map[string]bool{}
+		if nans == 0 {
+			reps2 := e.O.AskBatch([]string{"C05\tsetOrder\t-\t" + toks, "C05\tsetIter\t-\t" + toks})
+			allowedPos[reps2[0]], allowedIter[reps2[1]] = true, true
+		} else {
+			var reqs []string
+			for _, pm := range c05_permsOf(len(items)) {
+				reqs = append(reqs, "C05\tsetOrder\t"+c05_permField(pm)+"\t"+toks, "C05\tsetIter\t"+c05_permField(pm)+"\t"+toks)
+			}
+			reps2 := e.O.AskBatch(reqs)
+			for j := 0; j+1 < len(reps2); j += 2 {
+				allowedPos[reps2[j]], allowedIter[reps2[j+1]] = true, true
+			}
+			e.R.H("site_setOrder_nan_model_listings", fmt.Sprintf("%02d", len(allowedPos)))
+		}
+		seen := map[c05_setObs]bool{}
+		agree := true
+		mismatch := func(got, want, what string) {
+			if agree { // one report per case; the readings go on, so that a variation is seen as well
+				e.R.Mismatch(caseKey, got, want, what)
+			}
+			agree = false
+		}
+		for rep := 0; rep < reps; rep++ {
+			o, err := c05_observeSet(items)
+			if err != "" {
+				mismatch(err, "a set", "set construction")
+				break
+			}
+			seen[o] = true
+			if !allowedPos[o.pos] || !allowedIter[o.iter] {
+				var want []string
+				for a := range allowedPos {
+					want = append(want, a)
+				}
+				sort.Strings(want)
+				var wantI []string
+				for a := range allowedIter {
+					wantI = append(wantI, a)
+				}
+				sort.Strings(wantI)
+				mismatch(o.pos+" iter "+o.iter, strings.Join(want[:min(4, len(want))], " / ")+" iter "+strings.Join(wantI[:min(4, len(wantI))], " / "), "Set.SortedItems/Iter positions against sortedItems/iterItems")
+			}
+			// Inspect and List range over the map again: only comparable when the order cannot vary
+			if wantIns := "{" + c05_inspectAt(items, o.pos) + "}"; o.ins != wantIns && nans == 0 {
+				mismatch(o.ins, wantIns, "Set.Inspect against SortedItems")
+			}
+			if wantList := "[" + c05_inspectAt(items, o.iter) + "]"; o.list != wantList && nans == 0 {
+				mismatch(o.list, wantList, "Set.List against the iterator")
+			}
+		}
+		if len(seen) > 1 {
+			var texts []string
+			for o := range seen {
+				texts = append(texts, fmt.Sprintf("SortedItems [%s] Inspect %s Iter [%s]", c05_inspectAt(items, o.pos), o.ins, c05_inspectAt(items, o.iter)))
+			}
+			sort.Strings(texts)
+			finding := ""
+			if nans > 0 && agree {
+				finding = c05_fSetNaN
+			}
+			report := items
+			if finding == "" && shrunk < 5 {
+				shrunk++
+				report = c05_shrinkItems(items, func(sub []c05_item) bool {
+					first, _ := c05_observeSet(sub)
+					for q := 0; q < 96; q++ {
+						if o, _ := c05_observeSet(sub); o != first {
+							return true
+						}
+					}
+					return false
+				})
+			}
+			key := "object.NewSet{" + c05_itemDescs(report) + "}: SortedItems/Inspect/Iter/List"
+			detail := fmt.Sprintf("the same set is listed in %d different ways in %d readings: %s", len(seen), reps, strings.Join(texts[:min(3, len(texts))], " / "))
+			if len(report) != len(items) {
+				detail += " | shrunk from " + caseKey
+			}
+			e.R.Spec(key, detail, finding)
+		}
+	}
+}
+
+// c05SiteSetNaNScript: the NaN finding as a script sees it.
+func c05SiteSetNaNScript(e *Env, reps int) {
+	items := []c05_item{c05_fltItem(math.NaN(), ""), c05_fltItem(0.5, "0.5"), c05_fltItem(1.5, "1.5"), c05_fltItem(2.5, "2.5")}
+	src := "s := {float(\"nan\"), 0.5, 1.5, 2.5}\n[string(s), list(s)]\n"
+	e.R.Case(src, true)
+	toks := c05_itemToks(items)
+	var reqs []string
+	for _, pm := range c05_permsOf(len(items)) {
+		reqs = append(reqs, "C05\tsetOrder\t"+c05_permField(pm)+"\t"+toks, "C05\tsetIter\t"+c05_permField(pm)+"\t"+toks)
+	}
+	reps2 := e.O.AskBatch(reqs)
+	listings, iters := map[string]bool{}, map[string]bool{}
+	for j := 0; j+1 < len(reps2); j += 2 {
+		listings[strconv.Quote("{"+c05_inspectAt(items, reps2[j])+"}")] = true
+		iters["["+c05_inspectAt(items, reps2[j+1])+"]"] = true
+	}
+	seen := map[string]bool{}
+	agree := true
+	for rep := 0; rep < reps; rep++ {
+		out := EvalSrc(src, 5*time.Second)
+		seen[out.Value+out.Err] = true
+		ok := false
+		for l := range listings {
+			for it := range iters {
+				ok = ok || out.Value == "["+l+", "+it+"]"
+			}
+		}
+		if !ok && agree {
+			agree = false
+			e.R.Mismatch(src, out.Value+out.Err, fmt.Sprintf("one of %d listings x %d iterations", len(listings), len(iters)), "set with a NaN member against sortedItems/iterItems")
+		}
+	}
+	if len(seen) > 1 {
+		var texts []string
+		for t := range seen {
+			texts = append(texts, t)
+		}
+		sort.Strings(texts)
+		finding := ""
+		if agree {
+			finding = c05_fSetNaN
+		}
+		e.R.Spec(src, fmt.Sprintf("%d different results in %d evaluations: %s", len(seen), reps, strings.Join(texts[:min(3, len(texts))], " / ")), finding)
+	}
+}
+
+// c05_shrinkItems greedily drops items while `varies` holds.
+func c05_shrinkItems(items []c05_item, varies func([]c05_item) bool) []c05_item {
+	if !varies(items) {
+		return items
+	}
+	for changed := true; changed; {
+		changed = false
+		for i := len(items) - 1; i >= 0 && len(items) > 1; i-- {
+			cand := append(append([]c05_item{}, items[:i]...), items[i+1:]...)
+			if varies(cand) {
+				items = cand
+				changed = true
+			}
+		}
+	}
+	return items
+}
+
+// c05SiteSortedBy: sorted(set|map, cmp) with comparison functions that produce ties, and the
+// one-argument sorted(set) over ints and numerically equal floats, against the model's
+// sortedBuiltin (stable sort of the ORDERED listing).  The case is the script.
+func c05SiteSortedBy(e *Env, n, reps int) {
+	rng := e.Rng.Fork()
+	for i := 0; i < n; i++ {
+		r := rng.Fork()
+		k := 2 + r.Intn(8)
+		if r.Chance(15) {
+			k = 10 + r.Intn(12)
+		}
+		container := Pick(r, []string{"set", "set", "map"})
+		cmpKind := Pick(r, []string{"type", "len", "false", "default", "half"})
+		mode := 0
+		switch {
+		case container == "map":
+			mode = 3
+			if cmpKind == "type" || cmpKind == "default" || cmpKind == "half" {
+				cmpKind = "len"
+			}
+		case cmpKind == "len":
+			mode = 3
+		case cmpKind == "default" || cmpKind == "half":
+			mode = 2
+		}
+		items := c05_genItems(r, k, mode, true, 0)
+		switch i { // directed: the smallest containers on which a tie shows the starting order
+		case 0:
+			container, cmpKind, items = "map", "len", []c05_item{c05_strItem("yam"), c05_strItem("fig"), c05_strItem("date")}
+		case 1:
+			container, cmpKind, items = "set", "default", []c05_item{c05_intItem(1, true), c05_fltItem(1, "1.0"), c05_intItem(2, true), c05_fltItem(2, "2.0")}
+		case 2:
+			container, cmpKind, items = "set", "false", []c05_item{c05_strItem("b"), c05_intItem(1, true), c05_fltItem(0.5, "0.5")}
+		}
+		if len(items) < 2 {
+			continue
+		}
+		var sb strings.Builder
+		if container == "set" {
+			srcs := make([]string, len(items))
+			for j, it := range items {
+				srcs[j] = it.src
+			}
+			sb.WriteString("c := {" + strings.Join(srcs, ", ") + "}\n")
+		} else {
+			sb.WriteString("c := {}\n")
+			for j, it := range items {
+				fmt.Fprintf(&sb, "c[%s] = %d\n", it.src, j)
+			}
+		}
+		ranks := make([]string, len(items))
+		switch cmpKind {
+		case "type":
+			rk := map[string]int{}
+			var tys []string
+			for _, it := range items {
+				if _, ok := rk[it.ty]; !ok {
+					rk[it.ty] = r.Intn(3)
+					tys = append(tys, it.ty)
+				}
+			}
+			sb.WriteString("rk := {}\n")
+			for _, t := range tys {
+				fmt.Fprintf(&sb, "rk[%q] = %d\n", t, rk[t])
+			}
+			sb.WriteString("sorted(c, func(a, b) { return rk[type(a)] < rk[type(b)] })\n")
+			for j, it := range items {
+				ranks[j] = strconv.Itoa(rk[it.ty])
+			}
+		case "len":
+			sb.WriteString("sorted(c, func(a, b) { return len(a) < len(b) })\n")
+			for j, it := range items {
+				ranks[j] = strconv.Itoa(len(it.obj.(*object.String).Value()))
+			}
+		case "false":
+			sb.WriteString("sorted(c, func(a, b) { return false })\n")
+			for j := range items {
+				ranks[j] = "0"
+			}
+		case "half":
+			// compares the integer parts: 1.5, 1.0 and 1 tie
+			sb.WriteString("sorted(c, func(a, b) { return int(a) < int(b) })\n")
+			for j, it := range items {
+				ranks[j] = strconv.FormatInt(int64(math.Trunc(float64(it.num2)/2)), 10)
+			}
+		default:
+			sb.WriteString("sorted(c)\n")
+			for j, it := range items {
+				ranks[j] = strconv.FormatInt(it.num2, 10)
+			}
+		}
+		src := sb.String()
+		tie := false
+		cnt := map[string]int{}
+		for _, rk := range ranks {
+			cnt[rk]++
+			tie = tie || cnt[rk] >= 2
+		}
+		e.R.Case(src, tie)
+		e.R.H("site_sortedBy", container+"/"+cmpKind+map[bool]string{true: "/ties", false: "/no-ties"}[tie])
+		want := "[" + c05_inspectAt(items, e.O.Ask("C05", "sortedBy", "-", c05_itemToks(items), strings.Join(ranks, ","))) + "]"
+		seen := map[string]bool{}
+		agree := true
+		nrep := reps
+		if i < 3 {
+			nrep = reps * 4
+		}
+		for rep := 0; rep < nrep; rep++ {
+			out := EvalSrc(src, 5*time.Second)
+			got := out.Value
+			if out.Err != "" {
+				got = "error: " + out.Err
+			}
+			seen[got] = true
+			if got != want && agree {
+				agree = false
+				e.R.Mismatch(src, got, want, "sorted() against sortedBuiltin")
+			}
+		}
+		if len(seen) > 1 {
+			var texts []string
+			for t := range seen {
+				texts = append(texts, t)
+			}
+			sort.Strings(texts)
+			e.R.Spec(src, fmt.Sprintf("%d different results in %d evaluations: %s", len(seen), nrep, strings.Join(texts[:min(3, len(texts))], " / ")), "")
+		}
+	}
+}
+
+// ------------------------------------------------------------------ stream E: every callable x container argument
+
+var c05_callables = []string{
+	// builtins
+	"all", "any", "assert", "bool", "buffer", "byte", "byte_slice", "call", "chr", "chunk", "coalesce", "decode", "encode",
+	"error", "errorf", "float", "float_slice", "getattr", "hash", "int", "is_hashable", "iter", "keys", "len", "list", "map",
+	"ord", "reversed", "set", "sorted", "sprintf", "string", "try", "type", "print", "printf", "delete",
+	// modules without effects outside the VM
+	"math.sum", "math.min", "math.max", "math.abs", "strings.join", "strings.contains", "strings.fields", "json.marshal",
+	"fmt.sprintf", "fmt.println", "fmt.printf", "errors.new", "bytes.join", "regexp.match", "strconv.atoi", "base64.encode",
+	// methods of containers and strings
+	"cm.update", "cm.get", "cm.pop", "cm.setdefault", "cm.copy().update", "cs.union", "cs.intersection", "cs.difference",
+	"cs.add", "cs.remove", "cf.union", "cf.difference", "[0].extend", "[0].append", "\", \".join", "[3, 1, 2].map", "[3, 1, 2].filter",
+	"[3, 1, 2].each",
+}
+
+var c05_containerDefs = map[string]string{
+	"cm":  "cm := {}\ncm[\"fig\"] = 1\ncm[\"yam\"] = 2.5\ncm[\"kiwi\"] = \"x\"\ncm[\"date\"] = [1]\ncm[\"apple\"] = nil\ncm[\"pear\"] = 1.5\n",
+	"cs":  "cs := {2.5, 1.5, 0.5, 1, 1.0, \"a\", \"b\", true, nil, 10.5}\n",
+	"cf":  "cf := {2.5, 1.5, 0.5, 10.5, 3.0, (-1.5)}\n",
+	"cmp": "cmp := func(a, b) { return len(string(a)) < len(string(b)) }\n",
+}
+
+func c05_argScript(callee string, args []string) string {
+	call := callee + "(" + strings.Join(args, ", ") + ")"
+	var sb strings.Builder
+	for _, name := range []string{"cm", "cs", "cf", "cmp"} {
+		if regexp.MustCompile(`\b` + name + `\b`).MatchString(call) {
+			sb.WriteString(c05_containerDefs[name])
+		}
+	}
+	sb.WriteString(call + "\n")
+	return sb.String()
+}
+
+// c05BuiltinArgs: a multi-entry map, a mixed set and a float set at every argument position
+// (arity 1 and 2) of every callable above, next to a number, a string, a list, another
+// container and a comparison function that produces ties; each script is evaluated `reps`
+// times in fresh VMs and value, error text and stdout must not change.
+func c05BuiltinArgs(e *Env, reps int) {
+	fillers := []string{"0", "\"json\"", "cmp", "[1, 2]", "cm"}
+	for _, callee := range c05_callables {
+		for _, c := range []string{"cm", "cs", "cf"} {
+			forms := [][]string{{c}}
+			for _, f := range fillers {
+				forms = append(forms, []string{c, f}, []string{f, c})
+			}
+			for _, args := range forms {
+				src := c05_argScript(callee, args)
+				e.R.Case(src, true)
+				var first EvalOut
+				varied := ""
+				for rep := 0; rep < reps; rep++ {
+					out := EvalSrc(src, 5*time.Second)
+					if ErrClass(out.Err) == "context" {
+						varied = ""
+						break
+					}
+					if rep == 0 {
+						first = out
+						continue
+					}
+					if out.Value != first.Value || out.Err != first.Err || out.Stdout != first.Stdout {
+						varied = fmt.Sprintf("value=%q err=%q stdout=%q | value=%q err=%q stdout=%q", first.Value, first.Err, first.Stdout, out.Value, out.Err, out.Stdout)
+						break
+					}
+				}
+				cls := "value"
+				if first.Err != "" {
+					cls = ErrClass(first.Err)
+				}
+				e.R.H("callable_args_outcome", cls)
+				if varied != "" {
+					e.R.H("callable_args_varied", callee)
+					e.R.Spec(src, "evaluations of the same script differ: "+varied, "")
+				}
+			}
+		}
+	}
+}
+
+// ------------------------------------------------------------------ stream D2: module globals and the import cache
+
+// c05ConfigModules: the host supplies globals some of which hold modules; a module's own name
+// need not be the name of its global and two modules may share a name.  `import X` must bind
+// the module held by the global X (model: moduleCache, an insertFold under the global's name)
+// in every evaluation.
+func c05ConfigModules(e *Env, n, reps int) {
+	rng := e.Rng.Fork()
+	pool := []string{"ma", "mb", "conf", "conf_dev", "mc"}
+	for i := 0; i < n; i++ {
+		r := rng.Fork()
+		k := 1 + r.Intn(4)
+		if i == 0 {
+			k = 2
+		}
+		type glob struct {
+			name, mod string
+			id        int
+		}
+		var globs []glob
+		used := map[string]bool{}
+		for j := 0; j < k; j++ {
+			name := Pick(r, pool)
+			if used[name] {
+				continue
+			}
+			used[name] = true
+			g := glob{name: name, id: j + 1}
+			if r.Chance(85) || i == 0 {
+				g.mod = Pick(r, pool[:3+r.Intn(3)])
+				if r.Chance(35) {
+					g.mod = name
+				}
+			}
+			globs = append(globs, g)
+		}
+		if i == 0 { // the directed case: two modules called "conf" under the globals conf and conf_dev
+			globs = []glob{{"conf", "conf", 1}, {"conf_dev", "conf", 2}}
+		}
+		mk := func() map[string]any {
+			m := map[string]any{}
+			for _, g := range globs {
+				if g.mod == "" {
+					m[g.name] = g.id
+				} else {
+					m[g.name] = object.NewBuiltinsModule(g.mod, map[string]object.Object{"id": object.NewInt(int64(g.id))})
+				}
+			}
+			return m
+		}
+		var parts, fields, descs []string
+		sameName := map[string]int{}
+		for _, g := range globs {
+			if g.mod == "" {
+				fields = append(fields, g.name+"=-")
+				descs = append(descs, fmt.Sprintf("%s: %d", g.name, g.id))
+			} else {
+				fields = append(fields, fmt.Sprintf("%s=%s:%d", g.name, g.mod, g.id))
+				descs = append(descs, fmt.Sprintf("%s: module %q #%d", g.name, g.mod, g.id))
+				sameName[g.mod]++
+			}
+		}
+		// the names worth importing: those of the globals and those the modules give themselves
+		var queries []string
+		for _, q := range pool {
+			occurs := false
+			for _, g := range globs {
+				occurs = occurs || g.name == q || g.mod == q
+			}
+			if occurs {
+				queries = append(queries, q)
+			}
+		}
+		for _, q := range queries {
+			parts = append(parts, fmt.Sprintf("try(func() { import %s; return %s.id }, \"-\")", q, q))
+		}
+		for _, q := range queries {
+			parts = append(parts, fmt.Sprintf("try(func() { from %s import id; return id }, \"-\")", q))
+		}
+		for _, g := range globs {
+			if g.mod != "" {
+				parts = append(parts, g.name+".id")
+			}
+		}
+		src := "[" + strings.Join(parts, ", ") + "]\n"
+		caseKey := "WithGlobals{" + strings.Join(descs, ", ") + "} script: " + src
+		collide := false
+		for _, c := range sameName {
+			collide = collide || c >= 2
+		}
+		for _, g := range globs {
+			collide = collide || (g.mod != "" && g.mod != g.name)
+		}
+		e.R.Case(caseKey, collide)
+		e.R.H("config_modules", fmt.Sprintf("globals=%d alias-or-shared-name=%v", len(globs), collide))
+		cache := strings.Split(e.O.Ask("C05", "importCache", "-", strings.Join(fields, ","), strings.Join(queries, ",")), ",")
+		var wantParts []string
+		for round := 0; round < 2; round++ {
+			for j := range queries {
+				w := "\"-\""
+				if j < len(cache) && cache[j] != "-" {
+					w = cache[j]
+				}
+				wantParts = append(wantParts, w)
+			}
+		}
+		for _, g := range globs {
+			if g.mod != "" {
+				wantParts = append(wantParts, strconv.Itoa(g.id))
+			}
+		}
+		want := "[" + strings.Join(wantParts, ", ") + "]"
+		seen := map[string]bool{}
+		agree := true
+		for rep := 0; rep < reps; rep++ {
+			out := EvalSrc(src, 5*time.Second, risor.WithGlobals(mk()))
+			got := out.Value
+			if out.Err != "" {
+				got = "error: " + out.Err
+			}
+			seen[got] = true
+			if got != want && agree {
+				agree = false
+				e.R.Mismatch(caseKey, got, want, "import of host-supplied modules against moduleCache")
+			}
+		}
+		if len(seen) > 1 {
+			var texts []string
+			for t := range seen {
+				texts = append(texts, t)
+			}
+			sort.Strings(texts)
+			e.R.Spec(caseKey, fmt.Sprintf("%d different results in %d evaluations with the same globals: %s", len(seen), reps, strings.Join(texts[:min(3, len(texts))], " / ")), "")
+		}
+	}
+}
+
 // ------------------------------------------------------------------ stream D: configuration
 
 func c05Config(e *Env, n, reps int) {
@@ -1615,19 +2402,32 @@ func c05_runC05(e *Env) {
 		"index, print) run on the real compiler/VM and on the Lean Impl model under every adversary annotation; B: programs from the shared " +
 		"generator behind a prelude of map/set construction, iteration, printing, method results, default arguments, compiled and evaluated " +
 		"repeatedly in-process and in fresh child processes; C: site probes (sorted keys/set items, VirtualOS.Environ, first-failure loops, " +
-		"applyOverrides, MockFS.ReadDir) against the Lean site-class models; D: denylist configurations. A case is one program / one probe input; " +
+		"applyOverrides, MockFS.ReadDir) against the Lean site-class models; C2: sets of 2-42 hashable values of every type (int, float incl. " +
+		"+-Inf/denormals/NaN, string, bool, nil, byte, byte_slice; a third of them floats only) read through SortedItems/Inspect/Iter/List against " +
+		"sortedItems/iterItems over full hash keys; C3: sorted(set|map, cmp) scripts whose cmp produces ties (by type, by len, by integer part, " +
+		"constant false) and sorted(set) over ints and equal floats against sortedBuiltin; E: a 6-entry map, a mixed set and a float set at every " +
+		"argument position (arity 1-2) of 72 builtins/module functions/methods next to a number, a string, a list, a map and a tie-producing " +
+		"comparison function, each script evaluated repeatedly; D: denylist configurations; D2: host globals holding modules whose own names " +
+		"differ from / collide with the globals' names, imported by every name, against moduleCache. A case is one program / one probe input; " +
 		"distinct by its text; non-trivial when it contains a map/set literal, a default argument or a map/set iteration (all A and B programs do), " +
 		"or, for probes, when the map has >= 2 entries. 7 of 8 programs stay inside the guard NoBigMap."
 	nFrag, nGen, reps, kids, nSite := 500, 160, 8, 4, 150
 	if !e.Quick {
 		nFrag, nGen, reps, kids, nSite = 6000, 1500, 64, 16, 1500
 	}
-	c05Fragments(e, nFrag, reps)
-	c05General(e, nGen, reps, kids)
+	// the targeted probes run first: their cases are the smallest, and the first violation recorded
+	// becomes the replay
 	c05SiteSorted(e, nSite)
+	c05SiteSetOrder(e, nSite*2, reps*2)
+	c05SiteSetNaNScript(e, reps*4)
+	c05SiteSortedBy(e, nSite, reps)
+	c05ConfigModules(e, nSite/3, reps*2)
 	c05SiteEnviron(e, nSite/3, reps*2)
 	c05SiteFirstFailure(e, nSite/3, reps*2)
 	c05SiteOverrides(e, nSite/5, reps*2)
 	c05SiteMockFS(e, reps*4)
 	c05Config(e, nSite/10, reps)
+	c05BuiltinArgs(e, reps)
+	c05Fragments(e, nFrag, reps)
+	c05General(e, nGen, reps, kids)
 }
